@@ -151,4 +151,70 @@ let () =
   register "wf_expr" (fun a ->
     match sections a with
     | [gs; es] -> [bool_s (wf_expr (bindings gs) (expr_of (Sexp.parse es)))]
-    | _ -> failwith "wf_expr: expected 2 sections")
+    | _ -> failwith "wf_expr: expected 2 sections");
+  (* fl_string FL -> s<hex> | none : Num.fl_to_string, the model of strconv.FormatFloat(x, 'g', -1, 64) *)
+  register "fl_string" (fun a ->
+    match fl_to_string (fl_of (Sexp.parse (String.concat " " a))) with
+    | Some s -> ["s" ^ hex_of_bstr s]
+    | None -> ["none"]);
+  (* fn_known x<hex> -> #1 | #0 : the Spec (Spec/Expr.v fn_of_name) has a function of that name *)
+  register "fn_known" (fun a ->
+    match a with
+    | [nm] -> [bool_s (match fn_of_name (xs nm) with Some _ -> true | None -> false)]
+    | _ -> failwith "fn_known: arity");
+  (* spec_kinds #<first id> <globals V> ; <env V> ; <ij V | none> ; E
+       -> one field per operator node of E (every nesting depth, also inside branches that are not taken):
+          <op>:<k>          neg not
+          <op>:<k1>:<k2>    the 13 binary operators and elvis
+          tern:<k>          kind of the condition
+          fn:<name>:<k>...  calls
+     where k is the kind of the operand AS THE SPEC EVALUATES IT in this environment:
+     U undefined, N null, B bool, I int, F float, S string, L list, M map, X no value, O out of model *)
+  register "spec_kinds" (fun a ->
+    match a with
+    | n0 :: rest ->
+        (match sections rest with
+         | [gs; es; ijs; xs_] ->
+             let g = bindings gs and env = bindings es and ij = opt_value ijs in
+             let n = n_of_int (int_field n0) in
+             let kind e =
+               match eval_spec g env ij e n with
+               | Ok (v, _) -> (match v with VUndef -> "U" | VNull -> "N" | VBool _ -> "B" | VInt _ -> "I" | VFloat _ -> "F"
+                                          | VStr _ -> "S" | VList _ -> "L" | VMap _ -> "M")
+               | Err _ -> "X"
+               | _ -> "O" in
+             let bop_s = function
+               | BMul -> "mul" | BDiv -> "div" | BMod -> "mod" | BAdd -> "add" | BSub -> "sub" | BLt -> "lt" | BGt -> "gt"
+               | BLe -> "le" | BGe -> "ge" | BEq -> "eq" | BNe -> "ne" | BAnd -> "and" | BOr -> "or" in
+             let out = ref [] in
+             let rec go e =
+               (match e with
+                | EList items -> List.iter go items
+                | EMap items -> List.iter (fun (_, x) -> go x) items
+                | ERef (_, accs) | EIj accs -> List.iter (function AExpr (_, x) -> go x | _ -> ()) accs
+                | ECall (f, args) ->
+                    out := ("fn:" ^ string_of_bstr (fn_name f) ^ String.concat "" (List.map (fun x -> ":" ^ kind x) args)) :: !out;
+                    List.iter go args
+                | ENeg x -> out := ("neg:" ^ kind x) :: !out; go x
+                | ENot x -> out := ("not:" ^ kind x) :: !out; go x
+                | EBin (op, x, y) -> out := (bop_s op ^ ":" ^ kind x ^ ":" ^ kind y) :: !out; go x; go y
+                | EElvis (x, y) -> out := ("elvis:" ^ kind x ^ ":" ^ kind y) :: !out; go x; go y
+                | ETern (c, x, y) -> out := ("tern:" ^ kind c) :: !out; go c; go x; go y
+                | _ -> ()) in
+             go (expr_of (Sexp.parse xs_));
+             (match !out with [] -> ["-"] | l -> List.rev l)
+         | _ -> failwith "spec_kinds: expected 4 sections")
+    | _ -> failwith "spec_kinds: arity");
+  (* fl_arith add|sub|mul|div FL ; FL -> FL | none : the IEEE 754 operations of Num.v (fl_add_r ...) *)
+  register "fl_arith" (fun a ->
+    match a with
+    | op :: rest ->
+        (match sections rest with
+         | [xs_; ys_] ->
+             let x = fl_of (Sexp.parse xs_) and y = fl_of (Sexp.parse ys_) in
+             let r = (match op with
+                      | "add" -> fl_add_r x y | "sub" -> fl_sub_r x y | "mul" -> fl_mul_r x y | "div" -> fl_div_r x y
+                      | _ -> failwith "fl_arith: bad op") in
+             (match r with Some f -> [Sexp.to_string (fl_to f)] | None -> ["none"])
+         | _ -> failwith "fl_arith: expected FL ; FL")
+    | _ -> failwith "fl_arith: arity")
